@@ -104,7 +104,7 @@ func main() {
 	if c.Tier() == "thorough" {
 		nops = 100
 	}
-	kapp.RunSeqs(n, c.Workers(), r, sim.NewWorld, func(w *sim.World, seq int, r *c.Rng) {
+	kapp.RunSeqs(n, c.Workers(), r, sim.NewWorldBarrier(c.Workers()), func(w *sim.World, seq int, r *c.Rng) {
 		if seq == 0 {
 			directed(w, out, c.NewRng(c.Seed()))
 		}
